@@ -122,6 +122,12 @@ def h_blockreduce(ctx):
         for wc in weights:
             for v in wc:
                 ctx.assume(v > 0)
+    if cfg.get("cancel"):
+        # special values: the data of a block cancel (sum exactly zero) - "contains data" is not "total != 0"
+        for b in set(members):
+            idx = [p for p in range(npts) if members[p] == b]
+            for dc in data:
+                ctx.assume(eq(sum(dc[p] for p in idx), 0))
     arrs = [e, n, x] + data + (weights or [])
     arrs = [a.reshape(pshape) for a in arrs]
     if cfg.get("mem"):
@@ -221,6 +227,8 @@ def _cfg(tier, seed):
     out.append({"shape": (2, 2), "members": [3, 0, 3, 0], "ncomp": 2, "reduction": "sum", "weighted": False, "center": True, "pshape": (2, 2)})
     out.append({"shape": (1, 2), "members": [1, 0, 1, 1], "ncomp": 1, "reduction": "min", "weighted": False, "use_spacing": True, "drop": False, "pshape": (2, 2)})
     out.append({"shape": (1, 2), "members": [1, 0, 0, 1], "ncomp": 2, "reduction": "average", "weighted": True, "drop": False, "pshape": (2, 2), "mem": "F"})
+    out.append({"shape": (2, 2), "members": [3, 0, 3, 1], "ncomp": 1, "reduction": "sum", "weighted": False, "cancel": True})
+    out.append({"shape": (1, 3), "members": [2, 0, 2], "ncomp": 2, "reduction": "mean", "weighted": False, "cancel": True})
     out.append({"shape": (2, 2), "members": [3, 0, 1, 0], "ncomp": 1, "reduction": "sum", "weighted": False, "pshape": (2, 2), "mem": "T"})
     if tier == "thorough":
         out.append({"shape": (2, 2), "members": [0, 3, 3, 1], "ncomp": 3, "reduction": "average", "weighted": True, "drop": False})
